@@ -163,6 +163,11 @@ def call_external(I, name, args, kwargs, node, frame):
         nm = run.fresh_name("re.findall")
         key = f"findall({args[0].t},{args[1].t})"[:200]
         return I.fresh(("list", ("str",)), key)
+    if name == "re.finditer":
+        # deterministic total function of (pattern, subject): a finite sequence of match objects (havocked collaborators: `.group(i)` etc. by the contract's
+        # callback table), visited in order
+        key = f"finditer({args[0].t},{args[1].t})"[:200]
+        return I.fresh(("list", ("callback", "")), key)
     if name == "re.sub":
         repl = args[1]
         if not isinstance(repl, VStr):
@@ -658,6 +663,28 @@ def str_method(I, s, name, args, kwargs):
     raise E.Unsupported(f"str.{name}")
 
 
+def _forget_order(I, run, r, new_len, note, ret):
+    """the symbolic list keeps a length only (element positions, counters, sums and membership are dropped): used by pop(i) / insert"""
+    r.length = new_len
+    if r.arr is not None:
+        r.arr = z3.Array(run.fresh_name(f"{r.sym}#reordered"), z3.IntSort(), r.arr.sort().range())
+    r.appended = []
+    if r.elem[0] == "obj":
+        r.sym = run.fresh_name(f"{r.sym}#reordered")
+        r.farr = {}
+        r.shift = 0
+    r.mem = None
+    r.memfn = None
+    r.sums = {}
+    for cn in list(r.cnt):
+        c2 = z3.Int(run.fresh_name(f"{r.sym}#count:{cn}"))
+        run.assume(z3.And(c2 >= 0, c2 <= r.length, c2 <= r.cnt[cn] + 1, c2 >= r.cnt[cn] - 1))
+        r.cnt[cn] = c2
+    if note not in run.abstractions:
+        run.abstractions.append(note)
+    return ret
+
+
 def list_method(I, ref, r, name, args, kwargs):
     run = I.run
     if name == "append":
@@ -716,12 +743,32 @@ def list_method(I, ref, r, name, args, kwargs):
             elif r.elem[0] == "obj":
                 raise E.Unsupported("pop(0) on symbolic object list")
             return v
+        # pop at an arbitrary position of a symbolic list: IndexError when out of range, otherwise that element; one element fewer, and the order of
+        # what remains is forgotten (abstraction)
+        if isinstance(args[0], VInt):
+            n_ = r.length
+            if not run.decide(z3.And(args[0].t >= -n_, args[0].t < n_), "pop index in range"):
+                raise E.PyExc(VExc("IndexError"), "pop index out of range")
+            pos_ = E.simp(z3.If(args[0].t < 0, args[0].t + n_, args[0].t))
+            v = I.symlist_elem(ref, r, pos_)
+            return _forget_order(I, run, r, r.length - 1, "list.pop(i) on a symbolic list: order of the rest forgotten", v)
         raise E.Unsupported("pop index")
     if name == "insert":
         I.fire("container_write", ref)
         k = I.concrete_int(args[0])
         if r.concrete and k is not None:
             r.items.insert(k, args[1])
+            return NONE
+        if not r.concrete:
+            # insert into a symbolic list (any index: Python clamps it): one element more, order forgotten (abstraction)
+            if r.mem is not None:
+                try:
+                    r.mem = z3.Store(r.mem, I.term_of(args[1], r.elem) if r.elem[0] != "tuple" else I.inject(args[1]), z3.BoolVal(True))
+                except (E.Unsupported, z3.Z3Exception):
+                    r.mem = None
+            keep_mem = r.mem
+            _forget_order(I, run, r, r.length + 1, "list.insert on a symbolic list: order forgotten", NONE)
+            r.mem = keep_mem
             return NONE
     if name == "remove":
         I.fire("container_write", ref)
